@@ -475,6 +475,19 @@ func runC08(c *rt.Ctx) {
 	})
 	c.Require("kinds-sweep", 1)
 	c.Require("number-literal-texts", 30)
+	// floats that are almost whole: the neighbours of small and large whole numbers, products that pick up an ulp
+	c.Serial("almost-whole-floats", func(w *rt.W) {
+		for _, k := range []float64{1, 2, 3, 5, 7, 10, 100, 1000, 1024, 4096, 1e6, 1 << 30, 1 << 52, 1e15} {
+			for _, f := range []float64{math.Nextafter(k, math.Inf(1)), math.Nextafter(k, 0), k + 1e-10, k - 1e-10, k * (1 + 1e-12), k + 1e-9, k - 1e-9, 0.1 * 3 * 10 * k / 3, 0.07 * 100 * k / 7, k + 0.5, k} {
+				for _, u := range []string{"", "B", "kB", "KiB"} {
+					c08New(w, f, u)
+					c08New(w, float32(f), u)
+				}
+				w.ClassN("almost-whole-float", 1)
+			}
+		}
+	})
+	c.Require("almost-whole-float", 100)
 	// a number and a unit in every form a size can be written in: New, text, JSON string form, JSON object form in both
 	// key orders and through encoding/json - one arithmetic (the four units beyond 64 bits take zero only, in every form)
 	c.Serial("number-and-unit-in-every-form", func(w *rt.W) {
@@ -512,6 +525,12 @@ func runC08(c *rt.Ctx) {
 						var z size.Size
 						err := z.UnmarshalText([]byte(fmt.Sprint(n, u)))
 						return z, err
+					},
+					"JSON object form among ignored members (null, decoy value/unit inside nested objects and arrays)": func() (size.Size, error) {
+						return size.DefaultParser(fmt.Sprintf(`{"m":{"o":null,"value":5,"unit":"MB"},"t":[null,{"value":7}],"value":%d,"x":null,"unit":%q}`, n, u), size.RuleEnableJSONObjectForm)
+					},
+					"JSON object form behind an ignored array of nulls": func() (size.Size, error) {
+						return size.DefaultParser([]byte(fmt.Sprintf(`{"tags":[null],"n":null,"value":%d,"unit":%q}`, n, u)), size.RuleEnableJSONObjectForm)
 					},
 				}
 				for name, f := range forms {
